@@ -1,1 +1,3 @@
-
+import RallyGen.Percentiles
+import RallyGen.RetryWrapped
+import RallyGen.StatsKeys
